@@ -53,6 +53,7 @@ Definition reviewed_callees : list (string * string * string) := [
   ("PushBack", "pure", "container/list of debugger watchpoints (hook_dbg.go, debug build)");
   ("PushFront", "pure", "container/list of debugger breakpoints (hook_dbg.go, debug build)");
   ("Remove", "pure", "container/list of debugger breakpoints (hook_dbg.go, debug build)");
+  ("OpenFile", "pure", "os.OpenFile of the per-contract trace file in executor.call (TraceBlockNo debugging); not chain state");
   ("Write", "pure", "trace file / hash writer");
   ("WriteString", "pure", "trace file");
   ("append", "pure", "Go builtin (the append to ctx.events is a separate mutator entry)")
@@ -77,3 +78,60 @@ Definition classification_ok (occurring trans_mut trans_restore : list string) :
                        else if String.eqb (snd (fst x)) "restore" then mem_s (fst (fst x)) trans_restore
                        else negb (mem_s (fst (fst x)) trans_mut)) reviewed_callees
   && forallb (fun n => match class_of n with Some c => String.eqb c "mutator" | None => false end) trans_mut.
+
+(** The reviewed uses of the context flags.  gen_vmguard lists every syntactic use of
+    ctx.nestedView / ctx.isQuery / ctx.isFeeDelegation / executor.isView that is not a plain read:
+    initialisers in composite literals, assignments, ++ / -- (with where it stands: directly in the
+    function body, in a deferred closure, in another closure), address-of, every vmContext literal or
+    copy, every call of the two context constructors with its query / feeDelegation arguments, and
+    unstructured control flow in a function that touches the counter.  Properties/C20.v proves that
+    the generated list equals this one (both inclusions).  What the list establishes:
+    - isQuery is set when a context is built and never assigned afterwards (never cleared);
+      NewVmContextQuery sets it to true, Query and CheckFeeDelegation use that constructor;
+      NewVmContext takes it from its caller, the only caller (Execute: a transaction) passes false;
+    - a vmContext is built in those two functions only and never copied: contracts called by
+      contracts run in the caller's context, there is no child context to propagate the flags to;
+    - nestedView is never initialised or assigned (it starts at 0) and is changed only by ++ / -- in
+      executor.call (checked by VmGuard/Balance.v) and in the bracket callbacks luaViewStart /
+      luaViewEnd (called in pairs by the VM around a view function: trusted);
+    - isView of an executor is assigned in newExecutor only, i.e. before the executor runs. *)
+Definition reviewed_flag_sites : list (string * string * string * string) := [
+  ("CheckFeeDelegation", "NewVmContextQuery", "call", "fee delegation check runs in a query context");
+  ("Execute", "NewVmContext", "call query=false feeDelegation=isFeeDelegation", "transaction execution: not a query; the view counter protects view functions");
+  ("NewVmContext", "isFeeDelegation", "init feeDelegation", "from the caller");
+  ("NewVmContext", "isQuery", "init query", "from the caller");
+  ("NewVmContext", "vmContext", "literal", "context constructor");
+  ("NewVmContextQuery", "isQuery", "init true", "a query context is read-only");
+  ("NewVmContextQuery", "vmContext", "literal", "context constructor");
+  ("Query", "NewVmContextQuery", "call", "queries run in a query context");
+  ("executor.call", "nestedView", "++ direct", "checked by Balance");
+  ("executor.call", "nestedView", "-- deferred closure", "checked by Balance");
+  ("luaViewEnd", "nestedView", "-- direct", "bracket callback");
+  ("luaViewStart", "nestedView", "++ direct", "bracket callback");
+  ("newExecutor", "isView", "assign ce.isView = f.View", "from the ABI of the called function");
+  ("newExecutor", "isView", "assign ce.isView = true", "fee delegation check function runs as a view")
+].
+
+Definition site_eqb (a b : string * string * string) : bool :=
+  String.eqb (fst (fst a)) (fst (fst b)) && String.eqb (snd (fst a)) (snd (fst b)) && String.eqb (snd a) (snd b).
+
+(** generated uses that are not reviewed / reviewed uses that no longer occur *)
+Definition flag_sites_new (gen : list (string * string * string)) : list (string * string * string) :=
+  filter (fun g => negb (existsb (fun r => site_eqb g (fst r)) reviewed_flag_sites)) gen.
+Definition flag_sites_gone (gen : list (string * string * string)) : list (string * string * string) :=
+  map fst (filter (fun r => negb (existsb (site_eqb (fst r)) gen)) reviewed_flag_sites).
+Definition flag_sites_ok (gen : list (string * string * string)) : bool :=
+  match flag_sites_new gen, flag_sites_gone gen with [], [] => true | _, _ => false end.
+
+(** the cgo entry points that reach lua_pcall / lua_call: "contract" ones are translated to RunLua,
+    "library" ones run Lua code of the VM itself and are skipped *)
+Definition reviewed_lua_running_c : list (string * string * string) := [
+  ("vm_loadcall", "contract", "runs the module chunk of a contract");
+  ("vm_pcall", "contract", "runs the called contract function: the body of a view function runs here");
+  ("vm_newstate", "library", "loads the libraries into a new Lua state, before any contract is loaded");
+  ("vm_set_debug_hook", "library", "debug build only: installs the debugger hook")
+].
+Definition lua_running_ok (run skipped : list string) : bool :=
+  forallb (fun g => existsb (fun r => String.eqb g (fst (fst r)) && String.eqb (snd (fst r)) "contract") reviewed_lua_running_c) run
+  && forallb (fun g => existsb (fun r => String.eqb g (fst (fst r)) && String.eqb (snd (fst r)) "library") reviewed_lua_running_c) skipped
+  && existsb (String.eqb "vm_pcall") run.
